@@ -89,6 +89,8 @@ pub enum ChunkMode {
 
 pub fn run_driver(seed: u64, mode: ChunkMode, st: &mut DStats) {
     let mut rng = Rng::new(seed);
+    // yields in front of the driver's output-lock acquisitions (vtokio) in one run out of three
+    tokio::chaos::configure(crate::prng::mix(seed, 5152), *Rng::new(crate::prng::mix(seed, 5151)).pick(&[0u64, 0, 30]));
     let n_calls = 1 + rng.below(if mode == ChunkMode::Bytes { 6 } else { 64 }) as usize;
     // ----- build the input stream
     let mut msgs: Vec<Value> = vec![
